@@ -79,3 +79,54 @@ func lemma_c13_errors(fd *FieldData) {
 		gocv_assert(err2 != nil, "mismatch-string")
 	}
 }
+
+// a packed run is expanded in order
+func lemma_c13_uint64s_packed(fd *FieldData) {
+	gocv_assume(fd != nil && len(fd.data) == 1 && fd.wt == csproto.WireTypeLengthDelimited)
+	gocv_assume(!fd.unsafe && fd.uint64Slice == nil)
+	d := fd.data[0]
+	gocv_assume(varintStrict(d, 0))
+	n0 := varintLen(d, 0)
+	gocv_assume(n0 < len(d) && varintStrict(d, n0) && n0+varintLen(d, n0) == len(d)) // exactly two varints
+	s, err := fd.UInt64Values()
+	gocv_assert(err == nil, "accepted")
+	gocv_assert(len(s) == 2, "packed-run-expanded")
+	gocv_assert(s[0] == varintVal(d, 0) && s[1] == varintVal(d, n0), "values-in-wire-order")
+}
+
+// decode records exactly what the reference field parser finds (inputs of one field; the
+// definition requests tag 1)
+func lemma_c13_decode_varint(r *DecodeResult, p []byte) {
+	gocv_assume(r != nil && flatOK(r) && len(r.flatTags) == 1 && r.flatTags[0] == 1)
+	fd := r.flatData[0]
+	gocv_assume(len(fd.data) == 0)
+	gocv_assume(len(p) > 1 && p[0] == 0x08)                    // key of (1, varint)
+	gocv_assume(fieldStrict(p, 0) && fieldEnd(p, 0) == len(p)) // exactly one well-formed field
+	err := r.decode(p)
+	gocv_assert(err == nil, "accepted")
+	gocv_assert(len(fd.data) == 1 && fd.wt == csproto.WireTypeVarint, "recorded-once")
+	gocv_assert(gocv_view(fd.data[0], p, 1, len(p)), "recorded-the-varint-bytes")
+}
+
+func lemma_c13_decode_bytes(r *DecodeResult, p []byte) {
+	gocv_assume(r != nil && flatOK(r) && len(r.flatTags) == 1 && r.flatTags[0] == 1)
+	fd := r.flatData[0]
+	gocv_assume(len(fd.data) == 0)
+	gocv_assume(len(p) > 1 && p[0] == 0x0a)                    // key of (1, length-delimited)
+	gocv_assume(fieldStrict(p, 0) && fieldEnd(p, 0) == len(p)) // exactly one well-formed field
+	err := r.decode(p)
+	gocv_assert(err == nil, "accepted")
+	gocv_assert(len(fd.data) == 1 && fd.wt == csproto.WireTypeLengthDelimited, "recorded-once")
+	gocv_assert(gocv_view(fd.data[0], p, lenDelimStart(p, 1), len(p)), "recorded-the-payload")
+}
+
+func lemma_c13_decode_other(r *DecodeResult, p []byte) {
+	gocv_assume(r != nil && flatOK(r) && len(r.flatTags) == 1 && r.flatTags[0] == 1)
+	fd := r.flatData[0]
+	gocv_assume(len(fd.data) == 0)
+	gocv_assume(len(p) > 1 && p[0] == 0x10)                    // key of (2, varint): not requested
+	gocv_assume(fieldStrict(p, 0) && fieldEnd(p, 0) == len(p))
+	err := r.decode(p)
+	gocv_assert(err == nil, "accepted")
+	gocv_assert(len(fd.data) == 0, "unrequested-field-not-recorded")
+}
